@@ -34,6 +34,8 @@ BUILTIN_EXC = {
     "ImportError": "Exception", "UserWarning": "Exception", "DeprecationWarning": "Exception",
     "GeneratorExit": "BaseException", "EOFError": "Exception", "FileNotFoundError": "OSError", "IOError": "OSError",
     "EnvironmentError": "OSError", "UpstreamError": "Exception",
+    # decimal module (signals trapped by a decimal.Context are raised as these classes)
+    "DecimalException": "ArithmeticError", "Inexact": "DecimalException",
 }
 
 MUTATORS = {"append", "extend", "pop", "insert", "update", "appendleft", "popleft", "clear", "remove", "sort",
@@ -149,6 +151,12 @@ class Interp(object):
         reg = self.reg
         if head in ("Int", "Real"):
             return Num(reg.new(name, head))
+        if head == "Dec":
+            # a decimal.Decimal: the exact real it denotes; operator arithmetic on it rounds with the thread's decimal
+            # context, which is not modelled (binop refuses it): only library contracts (Context.add) compute with it
+            d = Num(reg.new(name, "Real"))
+            d.decimal = True
+            return d
         if head == "Bool":
             return Bool(reg.new(name, "Bool"))
         if head == "None":
@@ -412,6 +420,9 @@ class Interp(object):
     def py_eq(self, st, a, b):
         """python `==` as a Bool term"""
         if isinstance(a, Num) and isinstance(b, Num):
+            la, lb = lit_int(a.t), lit_int(b.t)
+            if la is not None and lb is not None:
+                return TRUE if la == lb else FALSE      # two integer literals: decided here (no infeasible branch)
             return EQ(a.t, b.t)
         if isinstance(a, Bool) and isinstance(b, Bool):
             return EQ(a.t, b.t)
@@ -713,6 +724,8 @@ class Interp(object):
         return out
 
     def binop(self, op, a, b, s):
+        if not self.spec_mode and (getattr(a, "decimal", False) or getattr(b, "decimal", False)):
+            raise Unsupported("operator arithmetic on a Decimal (rounds with the thread's decimal context: not modelled)")
         if isinstance(op, ast.Add) and (self.is_seq(s, a) or self.is_seq(s, b)):
             va, vb = self.as_view(s, a), self.as_view(s, b)
             if va.items is not None and vb.items is not None:
@@ -723,6 +736,9 @@ class Interp(object):
             n = va.len
             v = View(ADD(va.len, vb.len), lambda i: self.ite_sv(CMP("<", i, n), va.get(i), vb.get(SUB(i, n))))
             return [(s, v)]
+        if isinstance(op, ast.Mult) and self.is_seq(s, a) != self.is_seq(s, b):
+            from .histlib import repeat_seq      # `[x] * n`
+            return [(s, repeat_seq(self, s, a, b) if self.is_seq(s, a) else repeat_seq(self, s, b, a))]
         if isinstance(op, ast.Add) and isinstance(a, Str) and isinstance(b, Str):
             return [(s, Str(a.s + b.s))]
         if isinstance(op, ast.Add) and (isinstance(a, Opaque) and a.sort == "Key" or isinstance(b, Opaque) and b.sort == "Key") \
